@@ -56,6 +56,28 @@ WalletValue(st) == ValueOf(st, st.w)
 NetValue(st) == QAdd(WalletValue(st), PositionValue(st))
 
 -----------------------------------------------------------------------------
+(* derived, user-visible figures (get_position_status, get_market_balance), defined from the positions and the bar's price *)
+View(st) ==
+  [pos |-> [r \in OnRanges(st) |->
+              LET a == PosAmounts(st, r, st.pos[r].liq) IN
+              [a0 |-> a[1], a1 |-> a[2], lv |-> ValueOf(st, a), pv |-> ValueOf(st, <<st.pos[r].p0, st.pos[r].p1>>),
+               v |-> ValueOf(st, <<QAdd(a[1], st.pos[r].p0), QAdd(a[2], st.pos[r].p1)>>)]],
+   net |-> PositionValue(st),
+   base_unc  |-> QSumSet(OnRanges(st), [r \in Ranges |-> BaseOf(st, <<st.pos[r].p0, st.pos[r].p1>>)]),
+   quote_unc |-> QSumSet(OnRanges(st), [r \in Ranges |-> QuoteOf(st, <<st.pos[r].p0, st.pos[r].p1>>)]),
+   price |-> Price(st)]
+
+(* estimate helpers (estimate_amount / estimate_liquidity), relationally: the token amounts are worth `value` at the pool price and
+   are in the proportion the range needs, both to 0.1% *)
+EstimateOK(st, r, value, a0, a1, liq) ==
+  LET sA == SqrtRatioAtTick(r[1])  sB == SqrtRatioAtTick(r[2])
+      L  == Liquidity(SqrtNow(st), sA, sB, Wei(a0, st.pool.d0), Wei(a1, st.pool.d1))
+      u  == Amounts(SqrtNow(st), sA, sB, L, st.pool.d0, st.pool.d1)
+      tol == QOf(1, 1000)
+  IN /\ QWithin(ValueOf(st, <<a0, a1>>), value, tol, Zero)
+     /\ QWithin(ValueOf(st, u), value, QOf(2, 1000), Zero)         \* what the position would actually hold
+     /\ QWithin(QN(liq), QN(L), tol, Zero)
+
 (* bar 0: the price is that of the row's open tick; the code's fee path of bar 0 starts at its own close (no previous bar) *)
 InitSt(pool, w0, row0) == [pool |-> pool, w |-> w0,
                            pos |-> [r \in Ranges |-> [on |-> FALSE, liq |-> <<>>, p0 |-> Zero, p1 |-> Zero]],
